@@ -11,7 +11,7 @@ if only and os.path.exists(os.path.join(root, "RESULTS.json")):
     out = json.load(open(os.path.join(root, "RESULTS.json")))
 for m in sorted(os.listdir(root)):
     d = os.path.join(root, m)
-    if not os.path.isdir(d) or (only and m not in only):
+    if not os.path.isdir(d) or (only and m not in only) or not os.path.exists(os.path.join(d, "meta.json")):
         continue
     meta = json.load(open(os.path.join(d, "meta.json")))
     checks = [meta["property"]] + meta.get("also_checks", [])
